@@ -169,6 +169,17 @@ func c16SensorInfo(c c16DCMI) (string, string, string) {
 			}
 		}
 	}
+	if c.Family == 4 {
+		// one standard entity yields record IDs, a later one answers with an error:
+		// the standard family "yielded an error", so the DCMI family decides
+		cfg.DCMISensors = map[byte][]uint16{ipmiEnt[0]: ids}
+		cfg.DCMISensorErr[ipmiEnt[1+c.ErrEnt%2]] = byte(0xC9)
+		want = [3][]uint16{}
+		for e := 0; e < 3; e++ {
+			cfg.DCMISensors[dcmiEnt[e]] = []uint16{uint16(0xA000 + e), uint16(0xA100 + e)}
+			want[e] = cfg.DCMISensors[dcmiEnt[e]]
+		}
+	}
 	if c.Family == 3 {
 		code := byte(0xC9) // "parameter out of range"
 		if c.ErrCode != 0 {
@@ -243,7 +254,7 @@ func c16SensorInfo(c c16DCMI) (string, string, string) {
 			stdTotal += got
 		}
 	}
-	stdFailed := c.Family == 3
+	stdFailed := c.Family == 3 || c.Family == 4
 	wantDCMI := stdFailed || stdTotal == 0
 	if queriedDCMI != wantDCMI {
 		return "C16/dcmi/fallback", fmt.Sprintf("%+v: DCMI-specific entity IDs queried=%v, but the standard IDs yielded %d record IDs (error=%v)", c, queriedDCMI, stdTotal, stdFailed), ""
@@ -414,7 +425,10 @@ func runC16(r *rep.R) {
 	for count := 0; count < 256; count++ {
 		for page := 1; page <= 8; page++ {
 			for ent := 0; ent < 3; ent++ {
-				for fam := 0; fam < 4; fam++ {
+				for fam := 0; fam < 5; fam++ {
+					if fam == 4 && (count == 0 || ent != 0) {
+						continue
+					}
 					if !thorough(r) && count > 20 && count < 240 && count%16 > 1 && page != 8 && page != 1 {
 						continue
 					}
